@@ -33,8 +33,8 @@ Definition is_tchar (b : N) : bool :=
 
 (** field-value bytes: HTAB, SP, VCHAR, obs-text *)
 Definition is_vbyte (b : N) : bool := (b =? 9) || ((32 <=? b) && (b <=? 126)) || (128 <=? b).
-(** request-target bytes: VCHAR only *)
-Definition is_target_byte (b : N) : bool := (33 <=? b) && (b <=? 126).
+(** request-target bytes: no CTL, no SP (bytes >= 0x80 tolerated: they delimit nothing) *)
+Definition is_target_byte (b : N) : bool := (33 <=? b) && negb (b =? 127).
 
 (** the bytes up to the first CR LF; a bare CR or LF is an error *)
 Fixpoint take_line (s : list N) : option (list N * list N) :=
@@ -115,13 +115,13 @@ Fixpoint read_chunks (fuel : nat) (s : list N) : option (list N * list header * 
   | O => None
   | S f =>
     match take_line s with
-    | Some (_ :: _ as l, r) =>
+    | Some ((_ :: _) as l, r) =>
       match hex_value 0 l with
       | None => None
       | Some 0 =>
         match read_headers f r with Some (ts, r') => Some ([], ts, r') | None => None end
       | Some n =>
-        match take_n (N.to_nat n) r with
+        match (if N.of_nat (List.length r) <? n then None else take_n (N.to_nat n) r) with
         | Some (d, 13 :: 10 :: r') =>
           match read_chunks f r' with Some (b, ts, r'') => Some (d ++ b, ts, r'') | None => None end
         | _ => None
@@ -151,7 +151,7 @@ Definition read_request (fuel : nat) (s : list N) : option (request * list N) :=
         | Some (hs, r1) =>
           match values_of (B "host") hs, framing_of hs with
           | [host], Some (FLen n) =>
-            match take_n (N.to_nat n) r1 with
+            match (if N.of_nat (List.length r1) <? n then None else take_n (N.to_nat n) r1) with
             | Some (b, r2) => Some (mkreq m t host hs b [], r2)
             | None => None
             end
@@ -288,7 +288,7 @@ Definition strip_port (v : list N) : list N :=
     | Some i =>
       let after := skipn (S i) v in
       match after with
-      | 58 :: (_ :: _ as ds) => if forallb is_digit ds then firstn (S i) v else v
+      | 58 :: ((_ :: _) as ds) => if forallb is_digit ds then firstn (S i) v else v
       | _ => v
       end
     | None => v
